@@ -492,6 +492,8 @@ class Ev:
             return BoundLib(f"pairlist.{name}", v)
         if isinstance(v, Tup) and v.kind == "set" and name in ("union", "intersection", "difference", "symmetric_difference", "issubset", "issuperset", "isdisjoint", "add", "discard", "remove", "update"):
             return BoundLib(f"set.{name}", v)
+        if isinstance(v, Tup) and v.kind == "list" and name in ("sort", "reverse", "insert", "remove", "clear"):
+            return BoundLib(f"list.{name}", v)
         if isinstance(v, Tup) and name in ("append", "index", "tolist", "extend", "count", "copy", "pop"):
             return BoundLib(f"list.{name}", v)
         if isinstance(v, MatchV) and name in ("group", "groups"):
@@ -2118,6 +2120,34 @@ def lib_sorted(ev, a, k, n, mod):
     return Tup(sorted(items, key=kf, reverse=rev), "list")
 
 
+def lib_list_sort(ev, a, k, n, mod):
+    lst = a[0]
+    res = lib_sorted(ev, [lst], k, n, mod)
+    lst.items[:] = res.items
+    return None
+
+
+lib_list_sort.kw = {"key", "reverse"}
+
+
+def lib_list_misc(name):
+    def f(ev, a, k, n, mod):
+        lst = a[0]
+        if name == "reverse":
+            lst.items.reverse()
+        elif name == "clear":
+            del lst.items[:]
+        elif name == "insert":
+            lst.items.insert(_const_int(a[1]), a[2])
+        elif name == "remove":
+            hit = [i for i in lst.items if hkey(i) == hkey(a[1])]
+            if not hit:
+                raise RaisedV("ValueError")
+            lst.items.remove(hit[0])
+        return None
+    return f
+
+
 def lib_zip(ev, a, k, n, mod):
     return Tup([Tup(t) for t in zip(*[ev.iterate(x, n, mod) for x in a])], "list")
 
@@ -3187,6 +3217,8 @@ def lib_round(ev, a, k, n, mod):
 
 lib_round.kw = {"ndigits"}
 LIB.setdefault("round", lib_round)
+LIB.update({"list.sort": lib_list_sort, "list.reverse": lib_list_misc("reverse"), "list.clear": lib_list_misc("clear"), "list.insert": lib_list_misc("insert"),
+            "list.remove": lib_list_misc("remove")})
 # id(x): the identity of an object - distinct objects, distinct atoms (used as a cache key: the value cached under it is then
 # looked up by object identity, which C14's process-wide-cache rule judges)
 LIB.setdefault("id", lambda ev, a, k, n, mod: sp.Symbol(f"ID_{id(a[0])}", positive=True, integer=True))
